@@ -58,6 +58,10 @@ class StepLimit(BaseException):
     """more scheduling steps than any terminating run needs: livelock"""
 
 
+class Pruned(BaseException):
+    """systematic exploration: the rest of this schedule is equivalent to one explored before (sleep set); run abandoned"""
+
+
 class Killed(BaseException):
     """raised inside a fake process that was terminated"""
 
@@ -168,6 +172,19 @@ def ordered_subsets(n):
 # ------------------------------------------------------------------------------------------------
 # scheduler
 
+def dependent(z, x):
+    """may executing operation x change the effect or the enabledness of the (pending, not yet executed) operation z?
+    Only operations that can be a *choice* are ever pending in a sleep set: put, send to the main process, wait."""
+    (zk, zo), (xk, xo) = z, x
+    if zk == "put":
+        return xk in ("put", "get") and xo is zo
+    if zk == "send":
+        return (xk in ("send", "recv") and xo is zo) or (xk == "wait" and zo in xo)
+    if zk == "wait":
+        return xk == "wait" or (xk in ("send", "recv") and xo in zo)
+    return True
+
+
 class Task:
     def __init__(self, sim, name, fn):
         self.sim = sim
@@ -179,6 +196,7 @@ class Task:
         self.killed = False
         self.deadlocked = False
         self.pred = None          # enabledness of the announced operation (None = always enabled)
+        self.op = ("begin", None)  # (kind, object) of the announced operation, for the dependence relation
         self.eager = True         # "por": the announced operation commutes with everything others can do (bool or callable)
         self.what = "begin"
         self.exc = None
@@ -211,6 +229,8 @@ class Sim:
         self.fine = fine
         self.mode = "fine" if fine is True else "coarse" if fine is False else str(fine)
         self.por_violations = []
+        self.sleep = set()        # "por": sleep set (tasks)
+        self.pruned = False
         self.max_steps = max_steps
         self.tasks = []
         self.by_thread = {}
@@ -240,7 +260,7 @@ class Sim:
         return len(self.objects) - 1
 
     # -- scheduling
-    def sync(self, pred=None, what="op", force=False, eager=False):
+    def sync(self, pred=None, what="op", force=False, eager=False, op=("other", None)):
         """Scheduling point of the current task: returns when this task has been chosen to perform the announced operation."""
         me = self.cur()
         if me is None:
@@ -252,6 +272,7 @@ class Sim:
         me.pred = pred
         me.what = what
         me.eager = eager
+        me.op = op
         self._dispatch(me)
         me.pred = None
 
@@ -266,10 +287,10 @@ class Sim:
                 self.deadlock = [f"{t.name}:{t.what}" for t in self.tasks if not t.done]
             nxt = self.main
             nxt.deadlocked = True
+        elif self.mode in ("por", "por-nosleep"):
+            nxt = self._por_next(en, me)
         elif len(en) == 1:
             nxt = en[0]
-        elif self.mode == "por" and self._eager(en, me) is not None:
-            nxt = self._eager(en, me)
         else:
             nxt = en[self.chooser.choose(len(en), "sched", [f"{t.name}:{t.what}" for t in en])]
         if nxt is not me:
@@ -281,7 +302,30 @@ class Sim:
             raise Killed()
         if me.deadlocked:
             me.deadlocked = False
+            if self.pruned:
+                raise Pruned()
             raise (StepLimit if self.deadlock == ["step limit"] else Deadlock)(self.deadlock)
+
+    def _por_next(self, en, me):
+        """persistent singletons (eager operations) + sleep sets (Godefroid): `sleep` holds processes whose announced
+        operation was already explored from an equivalent state; they stay asleep until a dependent operation runs"""
+        awake = [t for t in en if t not in self.sleep]
+        if not awake:
+            self.pruned = True      # every continuation from here is a re-ordering of an explored one
+            self.main.deadlocked = True
+            return self.main
+        nxt = self._eager(awake, me)
+        if nxt is None:
+            if len(awake) == 1:
+                nxt = awake[0]
+            else:
+                c = self.chooser.choose(len(awake), "sched", [f"{t.name}:{t.what}" for t in awake])
+                nxt = awake[c]
+                if self.mode == "por":
+                    self.sleep.update(awake[:c])
+        if self.sleep:
+            self.sleep = {z for z in self.sleep if not z.done and not dependent(z.op, nxt.op)}
+        return nxt
 
     @staticmethod
     def _eager(en, me):
@@ -367,7 +411,7 @@ class Conn:
         if not self.writable:
             raise OSError("connection is read-only")
         data = pickle.dumps(obj)   # like the real thing: pickled by the sender, at send time
-        sim.sync(None, f"send {self.label}", eager=self._send_commutes)
+        sim.sync(None, f"send {self.label}", eager=self._send_commutes, op=("send", self._pipe))
         self._pipe.buf.append(("obj", data))
         sim.log("send", self._pipe, _describe(obj))
 
@@ -376,7 +420,7 @@ class Conn:
         if not self.writable:
             raise OSError("connection is read-only")
         b = bytes(memoryview(buf))[offset:(None if size is None else offset + size)]
-        sim.sync(None, f"send_bytes {self.label}", eager=self._send_commutes)
+        sim.sync(None, f"send_bytes {self.label}", eager=self._send_commutes, op=("send", self._pipe))
         self._pipe.buf.append(("bytes", b))
         sim.log("send_bytes", self._pipe, b)
 
@@ -391,7 +435,7 @@ class Conn:
             raise OSError("connection is write-only")
         self._pipe.recv_blocked += 1
         try:
-            sim.sync(lambda: bool(self._pipe.buf), f"{prim} {self.label}", force=True, eager=True)
+            sim.sync(lambda: bool(self._pipe.buf), f"{prim} {self.label}", force=True, eager=True, op=("recv", self._pipe))
         finally:
             self._pipe.recv_blocked -= 1
         k, v = self._pipe.buf.popleft()
@@ -438,13 +482,13 @@ class Queue:
     def put(self, x, block=True, timeout=None):
         sim = _sim()
         data = pickle.dumps(x)
-        sim.sync(None, "put")
+        sim.sync(None, "put", op=("put", self))
         self.q.append(data)
         sim.log("put", self, _describe(x))
 
     def get(self, block=True, timeout=None):
         sim = _sim()
-        sim.sync(lambda: bool(self.q), "get", force=True, eager=True)
+        sim.sync(lambda: bool(self.q), "get", force=True, eager=True, op=("get", self))
         x = pickle.loads(self.q.popleft())
         sim.log("get", self, _describe(x))
         return x
@@ -567,11 +611,11 @@ def wait(object_list, timeout=None):
     conns = list(object_list)
     if sim.cur() is not sim.main or any(c._pipe.child_reader for c in conns):
         sim.por_violations.append(f"wait called by {sim.cur().name} on {[c.label for c in conns]}")
-    sim.sync(lambda: any(c.ready() for c in conns), "wait", force=True)
+    sim.sync(lambda: any(c.ready() for c in conns), "wait", force=True, op=("wait", frozenset(c._pipe for c in conns)))
     ready = [c for c in conns if c.ready()]
     if len(ready) > 1:
         # "por": the full list or one connection (what a longer list does is a sequence of these)
-        subsets = ordered_subsets(len(ready)) if sim.mode != "por" else [tuple(range(len(ready)))] + [(i,) for i in range(len(ready))]
+        subsets = ordered_subsets(len(ready)) if not sim.mode.startswith("por") else [tuple(range(len(ready)))] + [(i,) for i in range(len(ready))]
         pick = subsets[sim.chooser.choose(len(subsets), "wait", [c.label for c in ready])]
         ready = [ready[i] for i in pick]
     sim.log("wait", None, tuple(c.label for c in ready))
@@ -661,6 +705,7 @@ class SimResult:
         self.protocol_errors = []
         self.leaked_threads = []
         self.por_violations = []
+        self.pruned = False
         self.steps = 0
 
 
@@ -711,6 +756,7 @@ def run_sim(argv, inputs, cores, chooser, fine=True, want_json=False, max_steps=
     out.task_errors = sim.task_errors
     out.protocol_errors = sim.protocol_errors
     out.por_violations = sim.por_violations
+    out.pruned = sim.pruned
     out.steps = sim.steps
     return out
 
@@ -749,6 +795,8 @@ def _selftest():
           f"threads alive: {threading.active_count()}")
     n = 0
     for ch, r in dfs(lambda ch: run_sim(argv, inputs, 2, ch, fine="por"), budget_s=5):
+        if r.pruned:
+            continue
         assert r.files == base.files and r.status == 0 and not r.por_violations
         n += 1
     print(f"dfs (partial-order reduction, 5 s): {n} schedules, exhausted={dfs.state['exhausted']}")
